@@ -267,23 +267,27 @@ def _task15_ctx(arg):
                                               f"for m, a, b in p.get_matches_and_pos(t):\n    body = m.lstrip('+-')\n    na = a + len(m) - len(body)\n"
                                               f"    assert ok(body, {lo}, {hi}) and (na == 0 or not t[na - 1].isdigit()), (m, a, b)"))
                                 break
-            for prefix in ('a', 'x-', ' ', '+', 'a.'):
-                if variant == 'UnsignedInteger' and prefix[-1] in '+-':
+            # the extensible form imposes nothing on its surroundings: glued between any prefix and suffix, the whole text is matched
+            # iff the numeral is canonical and in range
+            for prefix, suffix in (('a', ''), ('x-', ''), (' ', ''), ('+', ''), ('a.', ''), ('a', 'kg'), ('x ', '_'), ('#', '.'), ('id', 'kg'), ('=', 'px '), ('a.', 'a')):
+                if variant == 'UnsignedInteger' and prefix[-1:] in ('+', '-'):
                     continue
+                qsrc = f"Pregex({prefix!r}) + {eexpr} + Pregex({suffix!r})"
                 try:
-                    q = _mk(f"Pregex({prefix!r}) + {eexpr}")
+                    q = _mk(qsrc)
                 except Exception as e:  # noqa: BLE001
-                    viol.append(V(f'C15|{eexpr}|prefix|{prefix!r}|raised:{type(e).__name__}',
-                                  f"Pregex({prefix!r}) + {eexpr} raised {type(e).__name__}", f"q = Pregex({prefix!r}) + {eexpr}"))
+                    viol.append(V(f'C15|{eexpr}|glue|{prefix!r}|{suffix!r}|raised:{type(e).__name__}', f"{qsrc} raised {type(e).__name__}", f"q = {qsrc}"))
                     continue
+                nbad = 0
                 for num in nums:
                     cnt['extensible_prefix_checks'] += 1
-                    t = prefix + sg + num
+                    t = prefix + sg + num + suffix
                     em, exp = q.is_exact_match(t), ok(num, lo, hi)
-                    if em != exp:
-                        viol.append(V(f'C15|{eexpr}|prefix|{prefix!r}|{num}',
-                                      f"(Pregex({prefix!r}) + {eexpr}).is_exact_match({t!r}) is {em}, expected {exp}",
-                                      f"q = Pregex({prefix!r}) + {eexpr}\nassert q.is_exact_match({t!r}) == {exp}"))
+                    if em != exp and nbad < 3:
+                        nbad += 1
+                        viol.append(V(f'C15|{eexpr}|glue|{prefix!r}|{suffix!r}|{num}',
+                                      f"({qsrc}).is_exact_match({t!r}) is {em}, expected {exp}",
+                                      f"q = {qsrc}\nassert q.is_exact_match({t!r}) == {exp}"))
     return viol, cnt
 
 
@@ -497,23 +501,22 @@ def _task16(arg):
                                                       f"p = {expr}\nt = {t!r}\nassert not any(m[0] in '+-' and a > 0 and t[a - 1].isdigit() for m, a, b in p.get_matches_and_pos(t))"))
             # extensible with a prefix
             sg = {'Decimal': '', 'DecimalSigned': '+', 'PositiveDecimal': '+', 'NegativeDecimal': '-', 'UnsignedDecimal': ''}[variant]
-            try:
-                q = _mk(f"Pregex('a') + {dctor(variant, lo, hi, mn, mx, True)}")
-            except Exception as e:  # noqa: BLE001
-                viol.append(V(f'C16|{expr}|extensible|raised:{type(e).__name__}',
-                              f"Pregex('a') + {dctor(variant, lo, hi, mn, mx, True)} raised {type(e).__name__}",
-                              f"q = Pregex('a') + {dctor(variant, lo, hi, mn, mx, True)}"))
-                continue
-            for ip in ips[1:]:
-                for frac in fracs:
-                    t = 'a' + sg + ip + '.' + frac
-                    cnt['exact_match_calls'] += 1
-                    exp = ok(ip, lo, hi) and len(frac) >= mn and (mx is None or len(frac) <= mx)
-                    if q.is_exact_match(t) != exp and bad < 8:
-                        bad += 1
-                        viol.append(V(f'C16|{expr}|extensible|{t}',
-                                      f"(Pregex('a') + {dctor(variant, lo, hi, mn, mx, True)}).is_exact_match({t!r}) is {not exp}",
-                                      f"q = Pregex('a') + {dctor(variant, lo, hi, mn, mx, True)}\nassert q.is_exact_match({t!r}) == {exp}"))
+            for prefix, suffix in (('a', ''), ('a', 'kg'), ('w=', 'kg'), ('#', '_'), ('x', ' ')):
+                qsrc = f"Pregex({prefix!r}) + {dctor(variant, lo, hi, mn, mx, True)} + Pregex({suffix!r})"
+                try:
+                    q = _mk(qsrc)
+                except Exception as e:  # noqa: BLE001
+                    viol.append(V(f'C16|{expr}|extensible|{prefix!r}|{suffix!r}|raised:{type(e).__name__}', f"{qsrc} raised {type(e).__name__}", f"q = {qsrc}"))
+                    continue
+                for ip in ips[1:]:
+                    for frac in fracs:
+                        t = prefix + sg + ip + '.' + frac + suffix
+                        cnt['exact_match_calls'] += 1
+                        exp = ok(ip, lo, hi) and len(frac) >= mn and (mx is None or len(frac) <= mx)
+                        if q.is_exact_match(t) != exp and bad < 8:
+                            bad += 1
+                            viol.append(V(f'C16|{expr}|extensible|{t}', f"({qsrc}).is_exact_match({t!r}) is {not exp}",
+                                          f"q = {qsrc}\nassert q.is_exact_match({t!r}) == {exp}"))
     return viol, cnt
 
 
